@@ -66,7 +66,11 @@ func fromMultihash(ctx context.Context, services coreiface.CoreAPI, hash cid.Cid
 	if options.Length != nil && *options.Length > -1 {
 		sorting.Sort(sortFn, entries, false)
 
-		entries = entrySlice(entries, -*options.Length)
+		if *options.Length == 0 {
+			entries = []iface.IPFSLogEntry{}
+		} else {
+			entries = entrySlice(entries, -*options.Length)
+		}
 	}
 
 	var heads []cid.Cid
